@@ -101,6 +101,7 @@ def run_in_processes(progs: list[dict]) -> list[dict]:
 
 def sig_of(prog: dict, clause: str, mode: str) -> dict:
     return {"clause": clause, "forward_recv": dp.has_forward_recv(prog),
+            "nested_holder": dp.has_nested_holder(prog),
             "source": prog["id"].split("/")[0], "mode": mode}
 
 
